@@ -31,7 +31,9 @@ PERS = ("v20", "v32", "m800")
 CONNS = (4000, 500)
 
 READ_VALID = ["plain", "plain2.3", "arrs1.ba[1]{40}", "padded1", "str1", "big_int{2100}", "inner1.name", "padded_ary[1].d1"]
-READ_INVALID = ["nope", "padded1.nope", "plain{x}", "padded_ary[9]", "padded_ary{4}", "padded1.3", "none_tag"]
+READ_INVALID = ["nope", "padded1.nope", "plain{x}", "padded_ary[9]", "padded_ary{4}", "padded1.3", "none_tag",
+                # requests that parse locally into a different wire name (bit of an element, BOOL-array element / range) and are refused by the controller
+                "big_int[2100].3", "arrs1.ba[200]", "arrs1.ba[40]{40}"]
 
 
 def write_alphabet(proj):
@@ -43,6 +45,8 @@ def write_alphabet(proj):
     invalid = [
         ("nope", 1), ("padded1.nope", 1), ("plain3{x}", 1), ("padded_ary[9]", pv), ("padded_ary{4}", [pv] * 4), ("padded1.3", True),
         ("plain3", "abc"), ("s20_ary{3}", ["a", "b"]), ("arrs1.ba[5]{32}", [True] * 32), ("ro_tag", 1),
+        # several elements requested, a value without a length given; a bit of an element beyond the array
+        ("big_int{3}", 7), ("arrs1.ba[32]{32}", True), ("s20_ary{2}", None), ("big_int[2100].3", True),
     ]
     return valid, invalid
 
@@ -206,7 +210,7 @@ def shards(tier, seed):
 
 
 def describe(tier, seed):
-    return {"bounds": {"read_alphabet": len(READ_VALID) + len(READ_INVALID), "write_alphabet": 19, "list_lengths": "1,2,3 (all), 4 (6-request sub-alphabet)", "personalities": PERS, "connection_sizes": CONNS}, "exhaustive": True}
+    return {"bounds": {"read_alphabet": len(READ_VALID) + len(READ_INVALID), "write_alphabet": 23, "list_lengths": "1,2,3 (all), 4 (6-request sub-alphabet)", "personalities": PERS, "connection_sizes": CONNS}, "exhaustive": True}
 
 
 def run_list(rep, cfg, proj, ctl, d, op, lst, alone, sigk):
